@@ -192,7 +192,7 @@ impl Prop for C19 {
         ]
     }
     fn run_worker(&self, ctx: &Ctx, rep: &mut Report) {
-        let n = ctx.share(ctx.tier.pick(6_000, 80_000));
+        let n = ctx.share(ctx.tier.pick(20_000, 200_000));
         drive(ctx, rep, "sequences", cases(), n, &mut |c: &Case| {
             let mut o = judge_case(c);
             for k in &c.kinds {
